@@ -1370,6 +1370,12 @@ class SpaceManager(SharedSpaceOperations):
 
         for subspace in self._get_subs(space):
             if name in subspace.cells:
+                sub = subspace.cells[name]
+                if (sub.is_derived() and self.get_deriv_bases(
+                        sub, defined_only=True)[0] is cells):
+                    # So far derived from a base that comes later in the MRO
+                    subspace.clear_subs_rootitems()
+                    sub.on_inherit(self, [cells])
                 continue
             else:
                 subspace.clear_subs_rootitems()
